@@ -545,6 +545,36 @@ func checkC12(p *core.Program, r *core.Report) {
 	checkLockLeaks(p, r, R8, a.fns)
 	r.Floor(R8, 3)
 
+	const R11 = "C12.R11 write-deadline-never-cleared"
+	r.Rule(R11, "every SetWriteDeadline passes time.Now().Add(constant), never the zero time: the close-frame write does not arm a deadline of its own, it is bounded by the one the pump left; clearing the deadline after a successful write lets a local close on a stalled transport block for ever with the write mutex held")
+	{
+		nd := 0
+		for _, fn := range a.fns {
+			fn := fn
+			core.EachInstr(fn, func(in ssa.Instruction) {
+				if !core.IsStaticCall(in, "(*github.com/gorilla/websocket.Conn).SetWriteDeadline") {
+					return
+				}
+				nd++
+				arg := core.Canon(core.Common(in).Args[1])
+				key := "write deadline set in " + p.FnName(fn)
+				okArg := false
+				if c, ok := arg.(*ssa.Call); ok && core.CalleeName(&c.Call) == "(time.Time).Add" {
+					if inner, ok := core.Canon(c.Call.Args[0]).(*ssa.Call); ok && core.CalleeName(&inner.Call) == "time.Now" && core.ConstOf(core.Canon(c.Call.Args[1])) != nil {
+						okArg = true
+					}
+				}
+				if okArg {
+					r.OK(R11, key, p.Pos(in.Pos()), "now + constant")
+				} else {
+					r.Fail(R11, key, p.Pos(in.Pos()), "the write deadline is set to something other than now + constant (e.g. cleared with the zero time): later writes that rely on it - the close frame - are unbounded and block for ever on a stalled transport")
+				}
+			})
+		}
+		if nd == 0 {
+			r.Fail(R11, "write deadline", "", "no write deadline is ever armed: a stalled peer blocks the write pump for ever")
+		}
+	}
 	const R9 = "C12.R9 close-routine-always-releases"
 	r.Rule(R9, "every path through the close routine closes the stop/escape channel and the socket (shared with C13.R1): an early return before close(closeChannel) leaves writers blocked on the full queue for ever")
 	importRules(p, r, "C13", map[string]string{"C13.R1 close-routine-releases": R9}, nil)
@@ -1105,6 +1135,72 @@ func checkC13(p *core.Program, r *core.Report) {
 		}
 	} else {
 		r.Unresolved(R7, "CloseDataConnection of the websocket connection")
+	}
+
+	// ---- R9 no transport write error is dropped
+	const R9w = "C13.R9 write-results-used"
+	r.Rule(R9w, "the error result of every gorilla write call (WriteMessage, WriteControl, WriteJSON, NextWriter) is used, and the result of a package function that wraps such a write is discarded only on the local close path: a keep-alive ping whose failure is ignored leaves a dead transport unreported until the pong deadline, with both pumps alive and the socket open")
+	{
+		isIO := func(in ssa.Instruction) bool {
+			switch core.CalleeName(core.Common(in)) {
+			case "(*github.com/gorilla/websocket.Conn).WriteMessage", "(*github.com/gorilla/websocket.Conn).WriteControl",
+				"(*github.com/gorilla/websocket.Conn).WriteJSON", "(*github.com/gorilla/websocket.Conn).NextWriter", "(*github.com/gorilla/websocket.Conn).WritePreparedMessage":
+				return true
+			}
+			return false
+		}
+		mayIO := core.NewMay(p, false, isIO)
+		cdc := p.Method("ws", a.typ.Obj().Name(), "CloseDataConnection")
+		nres := 0
+		for _, fn := range a.fns {
+			fn := fn
+			core.EachInstr(fn, func(in ssa.Instruction) {
+				call, ok := in.(*ssa.Call)
+				if !ok {
+					return
+				}
+				direct := isIO(in)
+				wrapper := false
+				if t := call.Call.StaticCallee(); !direct && t != nil && p.PkgShort(t) == "ws" && t.Blocks != nil && mayIO.Fn(t) {
+					res := t.Signature.Results()
+					// a wrapper that returns the error leaves the handling to its caller (one that returns a bool
+					// has handled - reported - the failure itself, see R2)
+					if res.Len() > 0 && types.TypeString(res.At(res.Len()-1).Type(), nil) == "error" {
+						wrapper = true
+					}
+				}
+				if !direct && !wrapper {
+					return
+				}
+				nres++
+				used := call.Referrers() != nil && len(*call.Referrers()) > 0
+				key := "result of transport write in " + p.FnName(fn)
+				switch {
+				case used:
+					r.OK(R9w, key, p.Pos(in.Pos()), "the outcome of the write is examined or handed on")
+				case wrapper && cdc != nil && withinOp(p, fn, cdc, 2):
+					r.OK(R9w, key, p.Pos(in.Pos()), "local close: nothing to report")
+				default:
+					r.Fail(R9w, key, p.Pos(in.Pos()), "the result of a transport write is discarded: when this write fails (e.g. the keep-alive ping on a dead transport) nothing is reported, the closed query stays (false, nil) and pumps and socket live on")
+				}
+			})
+		}
+		if nres == 0 {
+			r.Fail(R9w, "transport write results", "", "no transport write found")
+		}
+	}
+	// ---- R8 a local close always runs the close routine
+	const R8 = "C13.R8 local-close-always-closes"
+	r.Rule(R8, "every path of CloseDataConnection calls the close routine - also when the close frame cannot be written (a write deadline that expired during a quiet period is enough): otherwise the socket and the read pump stay alive after the SHIP layer considers the connection ended")
+	if cdc := p.Method("ws", a.typ.Obj().Name(), "CloseDataConnection"); cdc != nil {
+		must := core.NewMust(p, 2, a.callsCloser)
+		if bad := core.MustPass(cdc, nil, must.Instr, nil); bad != nil {
+			r.Fail(R8, tn+" CloseDataConnection always closes", p.Pos(bad.Pos()), "a path of CloseDataConnection returns without running the close routine: the socket stays open and the pumps keep running although the connection was closed locally")
+		} else {
+			r.OK(R8, tn+" CloseDataConnection always closes", p.Pos(cdc.Pos()), "the close routine is called on every path")
+		}
+	} else {
+		r.Unresolved(R8, "CloseDataConnection of the websocket connection")
 	}
 }
 
